@@ -201,8 +201,8 @@ func syscRun(stream string, id int, force int, ops []scOp) hx.Case {
 			case 'R':
 				req := SysReq{Method: o.method, Target: "/c/" + o.path, Host: "h1.test", Header: o.hdr}
 				v := w.Do(req.Raw(), o.method == "HEAD")
-				cs := w.Perf.Take()
 				w.Quiesce()
+				cs := w.Perf.Take()
 				hs := sysx.SortedHeaderPairs(v.Header, map[string]bool{"date": true, "connection": true})
 				out = append(out, hx.I(v.Status), v.Framing, hx.X(string(v.Body)), hx.I(len(hs)))
 				for _, kv := range hs {
